@@ -171,3 +171,106 @@ class T2World(World):
         if (self.T + 1) % 4 in (2, 3) and lenbytes(n) == 3:
             labels.append("length_field_straddles_write_unit")
         return labels
+
+
+# ----------------------------------------------------------------------------
+# Type 1
+# ----------------------------------------------------------------------------
+class T1World(World):
+    """Type 1 Tag, structured layout.  hr = (HR0, HR1): (0x11,0x48) Topaz,
+    (0x12,0x4C) Topaz-512, others generic.  size = 120 (static) or 512.
+    TLVs start at byte 12; bytes 104..119 (static) / 104..127 (dynamic) are
+    reserved by the specification."""
+    kind = "tt1"
+
+    def __init__(self, sx, hr, size, prefix="", rsv=(), oldlen=0, old_lt_80=False):
+        self.sx = sx
+        self.size = size
+        phys = size
+        mem = [None] * phys
+        mem[8:12] = [0xE1, 0x10, size // 8 - 1, 0x00]
+        base = set(range(104, 120 if size == 120 else 128))
+        R = set(base)
+        rsv = list(rsv)
+        ri = 0
+        p = 12
+        self.ctl = []
+        for c in prefix:
+            while p in R:
+                p += 1
+            if c == 'N':
+                mem[p] = 0x00
+                p += 1
+                continue
+            frm, sz = rsv[ri]
+            ri += 1
+            encs = _ctl_encodings(frm)
+            pa, bo, e = sx.pick("enc%d" % ri, encs) if len(encs) > 1 else encs[0]
+            hi_nibble = sx.int("ctlhi%d" % ri, 0, 15)
+            if c == 'L':
+                nbits = sz * 8 - sx.int("lockbits_slack%d" % ri, 0, 7)
+                mem[p:p + 5] = [0x01, 0x03, (pa << 4) | bo, nbits & 0xFF,
+                                (hi_nibble << 4) | e]
+            else:
+                mem[p:p + 5] = [0x02, 0x03, (pa << 4) | bo, sz & 0xFF,
+                                (hi_nibble << 4) | e]
+            self.ctl.append((c, frm, sz))
+            R.update(range(frm, frm + sz))
+            p += 5
+        while p in R:
+            p += 1
+        self.R = R
+        self.T = p
+        mem[p] = 0x03
+        end = size
+        self.end = end
+        self.usable = [b for b in range(p, end) if b not in R]
+        self.count = len(self.usable)
+        self.cap = real_capacity(self.count)
+        self.oldlen = oldlen
+        assert oldlen <= self.cap, (oldlen, self.cap)
+        if oldlen < 255:
+            mem[p + 1] = oldlen
+            vstart = p + 2
+        else:
+            mem[p + 1:p + 4] = [0xFF, oldlen >> 8, oldlen & 0xFF]
+            vstart = p + 4
+        for b in range(p + 1, vstart):
+            assert b not in R, "reserved range on the length field"
+        vals = [b for b in range(vstart, end) if b not in R]
+        self.old_positions = vals[:oldlen]
+        if oldlen < len(vals) and sx.pick("old_terminator", [1, 0]):
+            mem[vals[oldlen]] = 0xFE
+        valset = set(vals)
+        for i in range(phys):
+            if mem[i] is None:
+                if old_lt_80 and i in valset:
+                    mem[i] = sx.int("m[%d]" % i, 0, 0x7F)
+                else:
+                    mem[i] = sx.byte("m[%d]" % i)
+        self.old = sx.mkbytes([mem[b] for b in self.old_positions], False)
+        self.area = set(b for b in range(p + 1, end) if b not in R)
+        self.sim = tags.Tt1Sim(mem, hr[0], hr[1])
+        self.clf = tags.SimClf(self.sim)
+        self.unit = 8 if self.sim.dynamic else 1
+        self.S = size - 16      # for geometry()
+
+    def target(self):
+        return tags.tt1_target(self.sim)
+
+    def geometry(self, n):
+        labels = []
+        vstart = self.T + 1 + lenbytes(n)
+        vals = [b for b in range(vstart, self.end) if b not in self.R]
+        if n > len(vals):
+            return labels
+        last = vals[n - 1] if n else vstart - 1
+        for c, frm, size in self.ctl:
+            rng = range(frm, frm + size)
+            if n and any(vstart <= b <= last for b in rng):
+                labels.append("rsv_inside_message")
+        if n and any(vstart <= b <= last for b in range(104, 128)):
+            labels.append("t1_message_spans_reserved_blocks")
+        if lenbytes(n) == 3 and (self.T + 1) // self.unit != (self.T + 3) // self.unit:
+            labels.append("length_field_straddles_write_unit")
+        return labels
